@@ -281,6 +281,34 @@ class VVec(V):
         return ("vec", self.id)
 
 
+class VSymBool(V):
+    """A boolean field of an abstract sequence element that is decided lazily (forks over the element's allowed combinations)."""
+    __slots__ = ("elem", "field")
+
+    def __init__(self, elem, field):
+        self.elem, self.field = elem, field
+
+    def __repr__(self):
+        return "?%s.%s" % (self.elem, self.field)
+
+    def key(self):
+        return ("symbool", self.elem, self.field)
+
+
+class VPy(V):
+    """Immutable holder for analysis-internal structured values (sequence handles, slices, iterators, symbolic strings)."""
+    __slots__ = ("tag", "data")
+
+    def __init__(self, tag, data):
+        self.tag, self.data = tag, data
+
+    def __repr__(self):
+        return "<%s %r>" % (self.tag, self.data)
+
+    def key(self):
+        return ("py", self.tag, repr(self.data))
+
+
 class VUninit(V):
     __slots__ = ()
 
